@@ -342,7 +342,7 @@ def check(run):
         exprs.append("(run [%s])" % "; ".join(coq_item(s, asts) for s in seq))
     model_vals = None
     if proof_ok:
-        model_vals = vlib.coq_eval("c05", PREAMBLE, exprs, shard=max(50, len(exprs) // 16 + 1))
+        model_vals = vlib.coq_eval("c05ev", PREAMBLE, exprs, shard=max(50, len(exprs) // 16 + 1))
     run.log("sessions: %d (+%d F17 batches), model evaluated: %s" % (len(sessions), len(f17), model_vals is not None))
 
     cases = []
